@@ -29,6 +29,7 @@ def parseOp : SExp → Option Op
     some (.edit (← asStr? n) (← asListOf? asStr? cs) (← asOpt? asStr? img) (← asBool? ol) (← asBool? ofast))
   | .list [.atom "save"] => some .save
   | .list [.atom "touchUni"] => some .touchUni
+  | .list [.atom "touch", n] => do some (.touch (← asStr? n))
   | _ => none
 
 def setOf (xs : List SExp) : SExp := tagged "set" xs
